@@ -4,10 +4,18 @@
 (* (all of those of at most EmitFullLen characters, a sample of the longer ones).                                          *)
 EXTENDS CppScan, Json
 CONSTANTS MaxLen, EmitFullLen, EmitMod
-VARIABLE text
-Init == text = <<>>
-Next == Len(text) < MaxLen /\ \E c \in Chars : text' = Append(text, c)
-Spec == Init /\ [][Next]_text
+VARIABLES text, nt              \* nt: number of characters (first generator) or pieces (second generator) of text
+Init == text = <<>> /\ nt = 0
+Next == Len(text) < MaxLen /\ nt' = nt + 1 /\ \E c \in Chars : text' = Append(text, c)
+Spec == Init /\ [][Next]_<<text, nt>>
+\* second generator: texts made of at most MaxLen PIECES (longer, structured texts: a string holding a comment marker followed by a
+\* splice, a comment glued to a string, ...); nt counts the pieces
+Pieces == << <<"a">>, <<" ">>, <<"n">>, <<"b", "n">>, <<"/", "*", "a", "*", "/">>, <<"/", "/", "a">>, <<"q", "/", "/", "q">>, <<"q", "/", "*", "q">>,
+             <<"q", "b", "q", "q">>, <<"q", "b", "b", "q">>, <<"s", "a", "s">>, <<"/", "*">>, <<"*", "/">>, <<"/", "/">>, <<"q", "a", "q">>, <<"/">>, <<"*">>, <<"q">>,
+             <<"q", "b", "b", "b", "b", "q">>, <<"/", "/", "q">>, <<"b", "b">> >>
+PInit == text = <<>> /\ nt = 0
+PNext == nt < MaxLen /\ nt' = nt + 1 /\ \E k \in 1..Len(Pieces) : text' = text \o Pieces[k]
+PSpec == PInit /\ [][PNext]_<<text, nt>>
 TextReq == TextOK(text)
 LitReq == LiteralsOK(text)
 CommentReq == InComment(text)
@@ -20,6 +28,10 @@ EmitConf == Chosen => PrintT("CONF " \o ToJson([text |-> text, out |-> Model(tex
                                                incs |-> Model(text).incs, emitted |-> Model(text).emitted, first |-> Model(text).first, last |-> Model(text).last,
                                                wf |-> WellFormed(text), dev |-> Deviates(text), refout |-> Norm(Textbook(text).out), reflits |-> Textbook(text).lits]))
 Never == FALSE        \* (CommentSeparates <- Never, BlockBeforeLine <- Never: the scanner before its repair)
+PChosen == nt <= EmitFullLen \/ Hash(text) % EmitMod = 0
+PEmitConf == PChosen => PrintT("CONF " \o ToJson([text |-> text, out |-> Model(text).out, lits |-> Model(text).lits, err |-> Model(text).err,
+                                               incs |-> Model(text).incs, emitted |-> Model(text).emitted, first |-> Model(text).first, last |-> Model(text).last,
+                                               wf |-> WellFormed(text), dev |-> Deviates(text), refout |-> Norm(Textbook(text).out), reflits |-> Textbook(text).lits]))
 \* vacuity probes (each must be violated: the class it names is reached within the bound)
 NoDeviation == ~(WellFormed(text) /\ Deviates(text))
 NoCommentWithText == ~(WellFormed(text) /\ Model(text).lits # <<>> /\ Find(text, <<"/", "*">>, 1) # 0 /\ Norm(Model(text).out) # <<>>)
